@@ -156,8 +156,10 @@ _STATE_HDR = re.compile(r'^State (\d+):')
 _CONJ = re.compile(r'^/\\ ([A-Za-z_][A-Za-z0-9_]*) = (.*)$', re.S)
 
 
-def iter_dump(path):
-    """Yield one dict {var: value} per state of a `tlc -dump` file."""
+def iter_dump(path, lazy=(), keep=None):
+    """Yield one dict {var: value} per state of a `tlc -dump` file.
+    lazy/keep: the variables named in `lazy` are parsed only for states for which keep(partial state) is true (others
+    are skipped entirely) - long character sequences dominate the parsing time of the yanny dumps."""
     cur = None
     buf = []
 
@@ -172,11 +174,20 @@ def iter_dump(path):
                 chunks.append(line)
             elif chunks:
                 chunks[-1] += '\n' + line
+        later = []
         for c in chunks:
             m = _CONJ.match(c)
             if not m:
                 raise ValueError('bad conjunct %r' % c[:80])
+            if m.group(1) in lazy:
+                later.append(m)
+                continue
             st[m.group(1)] = parse_value(m.group(2))
+        if later:
+            if keep is not None and not keep(st):
+                return False
+            for m in later:
+                st[m.group(1)] = parse_value(m.group(2))
         return st
 
     with open(path) as fh:
@@ -185,14 +196,14 @@ def iter_dump(path):
             m = _STATE_HDR.match(line)
             if m:
                 st = flush()
-                if st is not None:
+                if st is not None and st is not False:
                     yield st
                 cur = int(m.group(1))
                 buf = []
             elif line.strip():
                 buf.append(line)
     st = flush()
-    if st is not None:
+    if st is not None and st is not False:
         yield st
 
 
